@@ -118,7 +118,19 @@ pub fn name_limits(ctx: &Ctx) -> u64 {
         let mut own = labels(&["own"]);
         own.extend(labels(&["ex", "test"]));
         let other = labels(&["h", "other"]);
-        let (rec, expect) = record_for(position, &name, &own, &other);
+        // hickory's own constructors build the reference value: they must accept every name within the limits
+        let (rec, expect) = match catch(|| record_for(position, &name, &own, &other)) {
+            Ok(x) => x,
+            Err(pi) => {
+                l.eval();
+                l.violation(
+                    "limits:name-constructor-refuses-name-within-limits",
+                    &format!("Name::from_labels refused a name of {} octets (labels {:?}): {}", wire_len(&name), name.iter().map(|x| x.len()).collect::<Vec<_>>(), pi.msg),
+                    || json!({"kind": "text", "family": "name-limits", "text": "", "name_wire_len": wire_len(&name), "position": position}),
+                );
+                return;
+            }
+        };
         let mut lay = [0u8; NDIMS];
         if relative_form {
             if position.starts_with("owner") {
